@@ -86,7 +86,7 @@ class RefEval:
         if len(args) > len(params):
             raise RefUndefined("too many arguments")
         env: Dict[str, Any] = {}
-        for i, (pn, has_d, dr) in enumerate(params):
+        for i, (pn, has_d, dr, *_rest) in enumerate(params):
             if i < len(args):
                 env[pn] = args[i]
             elif has_d:
@@ -112,6 +112,8 @@ class RefEval:
                     res.status[path] = "skipped"
                 continue
             self._stmt(res, env, s, path, deact)
+        if deact:
+            return None  # outputs of a deactivated nested DAG are all None; the caller binds them
         return self._ret(env, dg["ret"])
 
     def _bind(self, env: Dict[str, Any], s: dict, value: Any) -> None:
